@@ -1738,6 +1738,9 @@ class ListProxy(list):
                 'Cannot pop an object from {clsname}.objects if '
                 'objects was not declared as a dictionary.'
             )
+        if len(args) > 1 and args[0] not in self._parameter.names:
+            # dict.pop(key, default): a missing key changes nothing
+            return args[1]
         with self._trigger():
             object = self._parameter.names.pop(*args)
             super().remove(object)
@@ -1746,6 +1749,9 @@ class ListProxy(list):
 
     def remove(self, object):
         with self._trigger():
+            # list.remove() compares by equality, the names by identity:
+            # look the stored object up first
+            object = list.__getitem__(self, list.index(self, object))
             super().remove(object)
             self._parameter._objects.remove(object)
             if self._parameter.names:
